@@ -1,5 +1,5 @@
 use crate::execution::{ColumnProvider, ExecutionResult, ResultRow};
-use crate::execution::expression_execution::ExpressionExecutionEngine;
+use crate::execution::expression_execution::{condition_holds, ExpressionExecutionEngine};
 use crate::model::{ExpressionTree, SelectStatement};
 use crate::data_model::{Row};
 use crate::execution::helpers::DistinctValues;
@@ -19,7 +19,7 @@ impl SelectExecutionEngine  {
         let expression_execution_engine = ExpressionExecutionEngine::new(&row);
 
         let valid = if let Some(filter) = select_statement.filter.as_ref() {
-            expression_execution_engine.evaluate(filter)?.bool()
+            condition_holds(expression_execution_engine.evaluate(filter)?)?
         } else {
             true
         };
